@@ -406,13 +406,18 @@ def audit_assumptions(ctx, props_v):
     """re-run coqc on the Props file to read its Print Assumptions output"""
     adir = os.path.join(COQ, "Cases", "audit")
     os.makedirs(adir, exist_ok=True)
-    try:
-        r = subprocess.run(["coqc", "-Q", ".", "SpdVerif", "-w", "none", "-noglob",
-                            props_v, "-o", os.path.join(adir, os.path.basename(props_v) + "o")],
-                           cwd=COQ, capture_output=True, text=True, timeout=900)
-        out, rc, err = r.stdout, r.returncode, r.stderr
-    except subprocess.TimeoutExpired:
-        out, rc, err = "", 124, "Print Assumptions audit: no result within 900 s"
+    out, rc, err = "", 1, ""
+    for _attempt in (1, 2):     # one retry: the audit recompiles a file that the build just accepted, so a failure here is environmental
+        try:
+            r = subprocess.run(["coqc", "-Q", ".", "SpdVerif", "-w", "none", "-noglob",
+                                props_v, "-o", os.path.join(adir, os.path.basename(props_v) + "o")],
+                               cwd=COQ, capture_output=True, text=True, timeout=900)
+            out, rc, err = r.stdout, r.returncode, (r.stderr or "") + ("" if r.returncode == 0 else "\n[stdout] " + r.stdout[-600:])
+        except subprocess.TimeoutExpired:
+            out, rc, err = "", 124, "Print Assumptions audit: no result within 900 s"
+        if rc == 0:
+            break
+        ctx.log(f"   audit of {props_v}: coqc exit {rc} (attempt {_attempt}): {err[-300:]}")
     axioms = set()
     closed = out.count("Closed under the global context")
     blocks = out.split("Axioms:")
